@@ -59,6 +59,20 @@ def matmul(*operands):
         return derived_observable(multi_dot, operands, array_mode=True)
 
 
+def _inherit_reweighted(result, operands):
+    """Sets the reweighted flag of all Obs in result if any Obs among the operands carries it."""
+    def _parts(matrix):
+        for entry in np.ravel(matrix):
+            for part in ([entry.real, entry.imag] if isinstance(entry, CObs) else [entry]):
+                if isinstance(part, Obs):
+                    yield part
+
+    if any(part.reweighted for op in operands for part in _parts(op)):
+        for part in _parts(result):
+            part.reweighted = True
+    return result
+
+
 def jack_matmul(*operands):
     """Matrix multiply both operands making use of the jackknife approximation.
 
@@ -110,7 +124,7 @@ def jack_matmul(*operands):
             elif isinstance(op.flat[0], Obs):
                 op = _exp_to_jack(op)
             r = op if r is None else r @ op
-        return _imp_from_jack_c(r, name, idl)
+        return _inherit_reweighted(_imp_from_jack_c(r, name, idl), operands)
     else:
         first = [o.flat[0] for o in operands if isinstance(o.flat[0], Obs)][0]
         name = first.names[0]
@@ -121,7 +135,7 @@ def jack_matmul(*operands):
             if isinstance(op.flat[0], Obs):
                 op = _exp_to_jack(op)
             r = op if r is None else r @ op
-        return _imp_from_jack(r, name, idl)
+        return _inherit_reweighted(_imp_from_jack(r, name, idl), operands)
 
 
 def einsum(subscripts, *operands):
@@ -195,6 +209,8 @@ def einsum(subscripts, *operands):
         result = _imp_from_jack(jack_einsum, name, idl)
     else:
         raise Exception("Result has unexpected datatype")
+
+    _inherit_reweighted(result, operands)
 
     if result.shape == ():
         return result.flat[0]
